@@ -832,7 +832,7 @@ def run_part(ctx, prop=None, props_rel=None):
         identities(ctx)
 
     # ---- report oracle witnesses: those on cases where a tie broke first, then the smallest
-    witnesses.sort(key=lambda t: (not t[0], t[1]))
+    witnesses.sort(key=lambda t: (not t[0], t[1] == 0, t[1]))      # prefer cases where a tie broke, then small non-empty tensors
     reported = set()
     for _, _, w in witnesses:
         key = (w["site"], w["klass"])
